@@ -346,7 +346,13 @@ impl<'a> ReadAdapter<'a> {
             0 => {
                 let buf = self.non_empty_reader_buffer_mut()?;
                 if buf.len() < N {
-                    return Err(DeserializationError::UnexpectedEOF);
+                    // The reader returned fewer than N bytes, but that does not mean we are at
+                    // EOF (the reader's buffer may simply be nearly exhausted, or the underlying
+                    // reader may have returned a short read), so fall back to filling `self.buf`
+                    self.buffer_at_least(N)?;
+                    output.copy_from_slice(&self.buffer()[..N]);
+                    self.pos += N;
+                    return Ok(output);
                 }
                 // SAFETY: This copy is guaranteed to be safe, as we have validated above
                 // that `buf` has at least N bytes, and `output` is defined to be exactly
@@ -397,10 +403,9 @@ impl<'a> ReadAdapter<'a> {
                     },
                     // We didn't get enough, but haven't necessarily reached eof yet, so fall back
                     // to filling `self.buf`
-                    m => {
-                        let needed = N - (m + n);
+                    _ => {
                         drop(reader_buf);
-                        self.buffer_at_least(needed)?;
+                        self.buffer_at_least(N)?;
                         debug_assert!(self.buffer().len() >= N, "expected buffer to be at least {N} bytes after call to buffer_at_least");
                         // SAFETY: This is guaranteed to be an in-bounds copy
                         unsafe {
@@ -427,16 +432,22 @@ impl<'a> ReadAdapter<'a> {
         Ok(output)
     }
 
-    /// Fill `self.buf` with `count` bytes
+    /// Fill `self.buf` until at least `count` unread bytes are available in it
     ///
     /// This should only be called when we can't read from the reader directly
-    fn buffer_at_least(&mut self, mut count: usize) -> Result<(), DeserializationError> {
-        // Read until we have at least `count` bytes, or until we reach end-of-file,
+    fn buffer_at_least(&mut self, count: usize) -> Result<(), DeserializationError> {
+        // Read until we have at least `count` unread bytes, or until we reach end-of-file,
         // which ever comes first.
         loop {
-            // If we have successfully read `count` bytes, we're done
-            if count == 0 || self.buffer().len() >= count {
+            // If we have successfully buffered `count` bytes, we're done
+            if self.buffer().len() >= count {
                 break Ok(());
+            }
+
+            // If `self.buf` was reset after having been fully consumed, `self.pos` may still hold
+            // the old read position; make sure it points at the first byte we are about to buffer
+            if self.buf.is_empty() {
+                self.pos = 0;
             }
 
             // This operation will return an error if the underlying reader hits EOF
@@ -451,7 +462,6 @@ impl<'a> ReadAdapter<'a> {
             let consumed = buf.len();
             self.buf.extend_from_slice(buf);
             reader.consume(consumed);
-            count = count.saturating_sub(consumed);
         }
     }
 }
